@@ -41,7 +41,8 @@ impl Parameters {
         let docs = YamlLoader::load_from_str(&contents).map_err(
             |e| ParameterError::ParseError(e.to_string()))?;
 
-        let doc = &docs[0];
+        let doc = docs.get(0).ok_or_else(
+            || ParameterError::ParseError("No YAML document found in the file".into()))?;
         let params = &doc["opw_kinematics_geometric_parameters"];
         // 'dof' is documented (and written by to_yaml) as a top level entry; the nested
         // location inside the geometric parameters is also supported.
